@@ -138,6 +138,26 @@ for ty in ["TensorView<{T}, Tensor<{T}, 2>, 2>", "TensorRange<{T}, Tensor<{T}, 3
     fam("view@source", ty, AS_T)
 fam("view@source", "TensorView<{T}, &'static Tensor<{T}, 2>, 2>", (lambda T, S: T.send and T.sync, lambda T, S: T.sync))
 fam("view@source", "MatrixView<{T}, &'static Matrix<{T}>>", (lambda T, S: T.send and T.sync, lambda T, S: T.sync))
+# every tensor / matrix view adaptor at the three kinds of source the library documents — owned,
+# shared reference, mutable reference — and all four element kinds (Send+Sync f64, Send-only Cell<f64>,
+# Sync-only PhantomData<MutexGuard>, neither Rc<f64>): with a shared-reference source a `&Tensor<T>`
+# crosses the thread boundary (needs `T: Sync`) and the adaptor's own `PhantomData<T>` marker needs `T: Send`
+REF_SRC = (lambda T, S: T.send and T.sync, lambda T, S: T.sync)
+for adaptor, d in [("TensorView", "2"), ("TensorAccess", "2"), ("TensorTranspose", "2"), ("TensorRange", "2"),
+                   ("TensorMask", "2"), ("TensorRename", "2"), ("TensorReverse", "2"), ("TensorIndex", "3, 1"),
+                   ("TensorExpansion", "2, 1")]:
+    dim = d.split(",")[0]
+    fam("view@source", f"{adaptor}<{{T}}, Tensor<{{T}}, {dim}>, {d}>", AS_T)
+    fam("view@source", f"{adaptor}<{{T}}, &'static mut Tensor<{{T}}, {dim}>, {d}>", AS_T)
+    fam("view@source", f"{adaptor}<{{T}}, &'static Tensor<{{T}}, {dim}>, {d}>", REF_SRC)
+for adaptor in ["MatrixView", "MatrixRange", "MatrixReverse"]:
+    fam("view@source", f"{adaptor}<{{T}}, Matrix<{{T}}>>", AS_T)
+    fam("view@source", f"{adaptor}<{{T}}, &'static mut Matrix<{{T}}>>", AS_T)
+    fam("view@source", f"{adaptor}<{{T}}, &'static Matrix<{{T}}>>", REF_SRC)
+# iterators over a view of a borrowed tensor (a shared borrow inside the source)
+fam("iterator(shared)", "TensorReferenceIterator<'static, {T}, TensorView<{T}, &'static Tensor<{T}, 2>, 2>, 2>",
+    (lambda T, S: T.sync, lambda T, S: T.sync))
+fam("iterator(mut/owned)", "TensorOwnedIterator<{T}, TensorAccess<{T}, Tensor<{T}, 2>, 2>, 2>", AS_T)
 # -- iterators (at the documented sources; struct bounds require a real source) ------------------
 for ty in ["TensorReferenceIterator<'static, {T}, Tensor<{T}, 2>, 2>", "ColumnIterator<'static, {T}>",
            "RowIterator<'static, {T}>", "ColumnMajorIterator<'static, {T}>", "RowMajorIterator<'static, {T}>",
@@ -183,7 +203,7 @@ def locate_rlib(ctx):
     cmd = ["cargo", "build", "--offline", "--quiet", "--message-format=json", "--target-dir", ctx["harness_target_dir"]]
     if os.path.exists(os.path.join(ctx["root"], "harness", "src", "bin", "emlv-C20.rs")):
         cmd += ["--bin", "emlv-C20"]      # one binary per property: only ours (and easy-ml) is needed
-    rc, out, err = ctx["sh"](cmd, cwd=os.path.join(ctx["root"], "harness"), check=False, env=env, timeout=1800)
+    rc, out, err = ctx["sh"](cmd, cwd=ctx.get("harness_dir") or os.path.join(ctx["root"], "harness"), check=False, env=env, timeout=1800)
     if rc != 0:
         raise ctx["MachineryError"]("cargo build (to locate the rlib) failed:\n" + err[-3000:])
     rlib = None
@@ -346,10 +366,33 @@ def run(ctx):
             raise ctx["MachineryError"](f"emlmodel C20 cannot parse the query for {r['type']}: {r['query']}")
 
     # ---- compile everything in parallel --------------------------------------------------------
-    jobs = [(h["path"], h) for h in hand] + [(r["path"], r) for r in auto]
-    with concurrent.futures.ThreadPoolExecutor(max_workers=min(16, (os.cpu_count() or 4))) as ex:
+    # auto-trait probes that must compile are first tried in batches (one program with up to 40
+    # assertions): a batch that compiles decides all its members at once; the members of a batch
+    # that does not compile are compiled one by one like everything else
+    positives = [r for r in auto if r["want"]]
+    batches = []
+    bdir = os.path.join(work, "batch")
+    os.makedirs(bdir, exist_ok=True)
+    for k in range(0, len(positives), 40):
+        members = positives[k:k + 40]
+        path = os.path.join(bdir, f"batch_{k // 40:03d}.rs")
+        with open(path, "w") as fh:
+            fh.write("// batch of must-compile auto-trait assertions\n" + PRELUDE + "fn main() {\n"
+                     + "".join(f"    assert_{r['trait']}::<{r['type']}>();\n" for r in members) + "}\n")
+        batches.append((path, members))
+    pool = concurrent.futures.ThreadPoolExecutor(max_workers=min(16, (os.cpu_count() or 4)))
+    with pool as ex:
+        bf = {ex.submit(compile_probe, p, rlib, deps, work): members for p, members in batches}
+        jobs = [(h["path"], h) for h in hand] + [(r["path"], r) for r in auto if not r["want"]]
         futs = {ex.submit(compile_probe, p, rlib, deps, work): item for p, item in jobs}
-        for fut in concurrent.futures.as_completed(futs):
+        for fut in concurrent.futures.as_completed(bf):
+            ok, _codes, _first = fut.result()
+            for r in bf[fut]:
+                if ok:
+                    r["obs"] = (True, [], "")
+                else:
+                    futs[ex.submit(compile_probe, r["path"], rlib, deps, work)] = r
+        for fut in concurrent.futures.as_completed(list(futs)):
             futs[fut]["obs"] = fut.result()
 
     def replay_copy(name, path):
@@ -486,7 +529,7 @@ def main():
     import verif
     path = sys.argv[2]
     verif.build_harness("C20")
-    ctx = {"env": verif.ENV, "sh": verif.sh, "root": ROOT, "harness_target_dir": verif.harness_target_dir(),
+    ctx = {"env": verif.ENV, "sh": verif.sh, "root": ROOT, "harness_target_dir": verif.harness_target_dir(), "harness_dir": verif.harness_dir(),
            "MachineryError": verif.MachineryError}
     rlib, deps = locate_rlib(ctx)
     rule, expect = parse_header(path)
